@@ -250,6 +250,21 @@ impl PoolMap {
         let mut removed_ids = vec![id.to_owned()];
         removed_ids.extend(self.calc_descendants(id));
 
+        // ancestors which stay in the pool lose the removed entries as descendants; this has to
+        // happen before the links are dropped below, remove_entry can no longer find them afterwards
+        let removed_set: HashSet<ProposalShortId> = removed_ids.iter().cloned().collect();
+        for removed_id in &removed_ids {
+            let Some(removed) = self.get(removed_id).cloned() else {
+                continue;
+            };
+            for anc_id in self.calc_ancestors(removed_id).difference(&removed_set) {
+                self.entries.modify_by_id(anc_id, |e| {
+                    e.inner.sub_descendant_weight(&removed);
+                    e.evict_key = e.inner.as_evict_key();
+                });
+            }
+        }
+
         // update links state for remove, so that we won't update_descendants_index_key in remove_entry
         for id in &removed_ids {
             self.remove_entry_links(id);
